@@ -159,9 +159,11 @@ def run(ctx):
             continue
         # an 8-byte parameter is never an element offset (the scalar operand of loadoffX is 4 bytes wide): the arm that stages it
         # alone is not judged.  Every other staging call is, whatever helper or local the value goes through.
-        if any(m.k == "IfStmt" and m.c[0] is not None and "size==8" in unparse(m.c[0]).replace(" ", "") and m.c[1] is not None and
-               any(x.id == c.id for x in m.c[1].walk()) for m in ee.walk()):
-            continue
+        from flow import Facts as _Facts3
+        fc3 = _Facts3(ee)
+        if any(cd[0] != "switch" and ((cd[1] and "size==8" in unparse(cd[0]).replace(" ", "")) or (not cd[1] and "size!=8" in unparse(cd[0]).replace(" ", "")))
+               for cd in fc3.conds(c)):
+            continue                # (must-facts are normalised: `!(size == 8)` on the else side, `size != 8` ... are the same fact)
         if True:
             leaves, todo, seen3 = set(), [a[2]], set()
             while todo:
